@@ -70,6 +70,8 @@ type ssoP struct {
 	Flate     string // DEFLATE block structure on the Redirect binding (msg.DeflateKind): "" | stored | huffman | fast | flushed | chunks
 	HTTP      string // HTTP-level shape of the same request (world.HTTPShapes)
 	Sibling   string // another provider instance alive in the same process (world.SiblingKinds)
+	Ctx       string // request context that is done when the handler starts (world.CtxShapes)
+	Dirty     string // "" | failed-writes: the provider served other replies on failing connections before (dirtyWrites)
 	LoginURL  string // the integrator's login UI URL (the prefix the stored id is appended to): "" absolute https | http | relative | odd-escape | bare-host
 	CType     string // Content-Type spelling of a POST: "" plain | charset | mixed-case | charset-quoted
 	Deflate   string // "" ok | truncated
@@ -259,34 +261,37 @@ func ssoBuild(p ssoP) (*world.World, *http.Request, *ssoTruth) {
 	if _, err := w.Store.RegisterSP("app-b", msg.SPB().XML()); err != nil {
 		panic(err)
 	}
+	if p.Dirty != "" {
+		dirtyWrites(w)
+	}
 	switch p.Persist {
 	case "error":
-		w.Store.FaultAt("CreateAuthRequest", 1, world.FaultError)
+		w.Store.FaultNext("CreateAuthRequest", 1, world.FaultError)
 	case "empty-id":
-		w.Store.FaultAt("CreateAuthRequest", 1, world.FaultEmptyID)
+		w.Store.FaultNext("CreateAuthRequest", 1, world.FaultEmptyID)
 	case "error-ctx-deadline":
-		w.Store.FaultAt("CreateAuthRequest", 1, world.FaultCtxDeadline)
+		w.Store.FaultNext("CreateAuthRequest", 1, world.FaultCtxDeadline)
 	case "error-ctx-canceled":
-		w.Store.FaultAt("CreateAuthRequest", 1, world.FaultCtxCanceled)
+		w.Store.FaultNext("CreateAuthRequest", 1, world.FaultCtxCanceled)
 	case "error-with-record":
-		w.Store.FaultAt("CreateAuthRequest", 1, world.FaultErrWithValue)
+		w.Store.FaultNext("CreateAuthRequest", 1, world.FaultErrWithValue)
 	case "":
 	default:
 		panic("ssoBuild: Persist " + p.Persist)
 	}
 	if p.KeyFault != "" {
-		w.Store.FaultAt("GetResponseSigningKey", 1, p.KeyFault)
+		w.Store.FaultNext("GetResponseSigningKey", 1, p.KeyFault)
 		t.Conformant = false // the environment, not the message, is off: no acceptance is demanded
 	}
 	switch p.Lookup {
 	case "error":
-		w.Store.FaultAt("GetEntityByID", 1, world.FaultError)
+		w.Store.FaultNext("GetEntityByID", 1, world.FaultError)
 	case "error-ctx-deadline":
-		w.Store.FaultAt("GetEntityByID", 1, world.FaultCtxDeadline)
+		w.Store.FaultNext("GetEntityByID", 1, world.FaultCtxDeadline)
 	case "error-ctx-canceled":
-		w.Store.FaultAt("GetEntityByID", 1, world.FaultCtxCanceled)
+		w.Store.FaultNext("GetEntityByID", 1, world.FaultCtxCanceled)
 	case "error-with-record":
-		w.Store.FaultAt("GetEntityByID", 1, world.FaultErrWithValue)
+		w.Store.FaultNext("GetEntityByID", 1, world.FaultErrWithValue)
 	}
 	t.Required = boolTrue(p.SPFlag) || boolTrue(p.IdPFlag)
 
@@ -701,7 +706,7 @@ func ssoBuild(p ssoP) (*world.World, *http.Request, *ssoTruth) {
 	default:
 		panic("ssoBuild: transport " + transport)
 	}
-	req = world.Shape(req, p.HTTP)
+	req = world.Shape(world.Shape(req, p.HTTP), p.Ctx)
 	// honest signature bookkeeping
 	if p.Sign != "" && p.Forge == "" && p.Signer == "" && p.XML == "" && p.B64 == "" && p.Deflate == "" && p.Special == "" {
 		t.HonestlySigned, t.SigIntact = true, true
@@ -725,6 +730,9 @@ func ssoBuild(p ssoP) (*world.World, *http.Request, *ssoTruth) {
 	}
 	if p.SPCert == "none" && t.Required {
 		t.Conformant = false
+	}
+	if p.Ctx != "" {
+		t.Conformant = false // nobody waits for the answer: no acceptance is demanded
 	}
 	if p.Persist != "" || p.Extra != "" || (p.ACSURL != "" && p.ACSURL != "registered") || p.ProtoB == "junk" {
 		t.Conformant = false
@@ -929,6 +937,10 @@ func (p *ssoP) set(name, val string) {
 		p.Sibling = val
 	case "LoginURL":
 		p.LoginURL = val
+	case "Dirty":
+		p.Dirty = val
+	case "Ctx":
+		p.Ctx = val
 	case "Frac":
 		p.Frac = val
 	case "Transport":
